@@ -134,6 +134,9 @@ PHYS = {
     ('SPEED', 'kts'): (Fraction(3600, 1852), Fraction(0), 'm/s -> kn'),
 }
 
+class NonAffine(Exception):
+    pass
+
 def affine(t, x):
     """(a, b, rounding digits or None) such that t = round(a*x + b, k) ; None if not affine in x"""
     k = t[0]
@@ -155,6 +158,8 @@ def affine(t, x):
         if op == '/':
             if r[0] == 0 and r[1] != 0: return (l[0] / r[1], l[1] / r[1], l[2])
             return None
+        if op in ('%', '//', '**', '&', '|', '^', '<<', '>>') and (l[0] != 0 or r[0] != 0):
+            raise NonAffine(f"operator {op} applied to the converted value")
         return None
     if k == 'call' and t[1] == ('name', 'round') and t[2]:
         inner = affine(t[2][0], x)
@@ -201,7 +206,10 @@ def helper_affine(program, name):
     others = rets[1:] if none_branch else rets
     if len(others) != 1:
         return None, f"{len(others)} value-returning paths"
-    a = affine(others[0][2], p)
+    try:
+        a = affine(others[0][2], p)
+    except NonAffine as e:
+        return {'nonaffine': str(e), 'line': fn.lineno, 'term': show(others[0][2])}, None
     if a is None:
         return None, 'return value is not an affine function of the argument: ' + show(others[0][2])
     return {'a': a[0], 'b': a[1], 'digits': a[2], 'none_to_none': none_ok, 'line': fn.lineno, 'term': show(others[0][2])}, None
@@ -277,6 +285,10 @@ def unit_rules(chk, program):
         info, why = helper_affine(program, v[1][1])
         if info is None:
             chk.unknown('UNIT-AFFINE', inst, why, UT, 0)
+            continue
+        if 'nonaffine' in info:
+            chk.violation('UNIT-AFFINE', f"{inst}::{v[1][1]}", file=UT, line=info['line'], func=v[1][1], expected='an affine map of the input (optionally rounded)', found=info['term'],
+                          detail=info['nonaffine'] + ': a unit conversion is linear; e.g. a modulo wraps negative values instead of converting them')
             continue
         a, b, what = PHYS[(q, lit)]
         a, b = float(a), float(b)
